@@ -384,7 +384,7 @@ func main() {
 		for _, cfg := range cfgs {
 			c := cfg
 			st := seq.BFS(seq.Config[*idxbfs.World, idxbfs.Op]{
-				Depth: depth, Workers: 1, Deadline: time.Now().Add(budget),
+				Depth: depth, Workers: 1, Deadline: time.Now().Add(budget), HangCPU: 20 * time.Second,
 				Build: func(wi int, path []idxbfs.Op) (*idxbfs.World, string, string) {
 					vrt.InactiveMapPolicy = 0
 					w, k, d := idxbfs.Build(c, path)
@@ -423,6 +423,10 @@ func main() {
 			res.St.Complete = res.St.Complete && st.Complete
 			if st.DepthCompleted < res.St.DepthCompleted {
 				res.St.DepthCompleted = st.DepthCompleted
+			}
+			if st.Hung {
+				shard.Emit(res) // reported; the call is still running on a leaked goroutine
+				os.Exit(0)
 			}
 		}
 		if si == 0 {
